@@ -180,7 +180,9 @@ def h_tetra(ctx, N, kind, fixed=0, symcoords=3, cell=None):
             ctx.oblige("perfect tetrahedron: q = 1", O.eq(res[0, i], 1))
 
 
-def h_nematic(ctx, N, F, topo, eig):
+def h_nematic(ctx, N, F, topo, eig, topo2=None):
+    """topo2: after the first call the neighbour file is rewritten (same path) with this topology and the SAME object is asked
+    again - the tensor must be averaged over the list that is given now"""
     ctx.covers(FUNCS[3], "PyMatterSim.utils.coarse_graining.spatial_average")
     ne = ctx.repo("PyMatterSim.static.nematic")
     ru = ctx.repo("PyMatterSim.reader.reader_utils")
@@ -207,6 +209,14 @@ def h_nematic(ctx, N, F, topo, eig):
     out = os.path.join(ctx.tmpdir(), "nem")
     obj = ne.NematicOrder(S)
     res = obj.tensor(ndim=2, neighborfile=nb, eigvals=eig, outputfile=out)
+    if topo2 is not None:
+        with open(nb, "w") as fh:
+            for f in range(F):
+                fh.write("id cn neighborlist\n")
+                for i, lst in enumerate(topo2):
+                    fh.write(" ".join([str(i + 1), str(len(lst))] + [str(j + 1) for j in lst]) + "\n")
+        res = obj.tensor(ndim=2, neighborfile=nb, eigvals=eig, outputfile=out)
+        topo = topo2
     ctx.output("order", res)
     Q = obj.QIJ
     half = Fraction(1, 2) if sym else 0.5
@@ -323,6 +333,7 @@ def cfg_nem(tier, seed):
     for eig in (False, True):
         out.append(dict(N=3, F=1, topo=None, eig=eig))
         out.append(dict(N=3, F=2 if not eig else 1, topo=[[1, 2], [0], [1]], eig=eig))
+    out.append(dict(N=3, F=1, topo=[[1], [2], [0]], eig=False, topo2=[[1, 2], [0, 2], [0]]))     # list regenerated under the same name
     return out
 
 
